@@ -70,4 +70,15 @@ LWellFormed(lo, hi) == LLess(LSub(hi, lo), LHalf)
 LWindowDecision(lo, hi, x) ==
   IF ~LWellFormed(lo, hi) THEN "any"
   ELSE IF LInWindow(lo, hi, x) THEN "accept" ELSE "reject"
+
+\* Freshness (Serial!Fresh / FreshAtEnd / FreshDecision) on limb pairs; past
+\* and future are limb pairs too
+LOne == <<0, 1>>
+LFresh(now, ts, past, future) ==
+  LInWindow(LSub(now, past), LAdd(LAdd(now, future), LOne), ts)
+LFreshAtEnd(now, ts, past, future) ==
+  LSub(now, ts) = past \/ LSub(ts, now) = future
+LFreshDecision(now, ts, past, future) ==
+  IF LFreshAtEnd(now, ts, past, future) THEN "any"
+  ELSE IF LFresh(now, ts, past, future) THEN "accept" ELSE "reject"
 =============================================================================
